@@ -183,6 +183,19 @@ def make_runner(mode, nodes, ctx0, d):
             for _ in range(k):
                 guarded(lambda: Pipeline(copy.deepcopy(nodes), trace=driver()).process(Payload(NoDataType(), ContextType(copy.deepcopy(ctx0)))))
         return run_k, [], lambda: None
+    if mode == "run-space-api":
+        # what `semantiva run` does for a run_space block, kept observable: one Pipeline object, run metadata with the
+        # 0-based index and the run's context before every run
+        pipe = Pipeline(copy.deepcopy(nodes))
+        idx = [0]
+
+        def run_k(k):
+            for _ in range(k):
+                ctx = dict(copy.deepcopy(ctx0), rs_i=idx[0])
+                pipe.set_run_metadata({"trace_context": None, "run_space_index": idx[0], "run_space_context": dict(ctx)})
+                idx[0] += 1
+                guarded(lambda: pipe.process(Payload(NoDataType(), ContextType(ctx))))
+        return run_k, [pipe.transport], lambda: None
     if mode == "run-space":
         def run_k(k):
             cfg = {"extensions": ["props.components"], "pipeline": {"nodes": nodes},
@@ -293,7 +306,7 @@ def judge(mode, samples, generated_per_run=None, nodes_per_run=None):
                                                        b["objects"]["new_classes"] - a["objects"]["new_classes"], generated_per_run):
                 sig += ":unexpected-class-count"
             if part == "by_transport":
-                if mode in ("reused", "reused-traced", "run-space") and nodes_per_run is not None and msgs == dn * nodes_per_run:
+                if mode in ("reused", "reused-traced", "run-space-api", "run-space") and nodes_per_run is not None and msgs == dn * nodes_per_run:
                     sig += ":one-unconsumed-message-per-node"
                 elif mode == "queue" and msgs == 0:
                     sig += ":empty-channels-of-finished-jobs"
@@ -396,7 +409,7 @@ def run(tier: str) -> int:
             variants.append((nodes + [{"processor": "TFail"}] if pipegen.run_real(nodes + [{"processor": "TFail"}], ctx0)["cls"] == ("proc", "proc")
                              else [{"processor": "TSourceDef"}, {"processor": "TFail"}], True))
         with rt.tempdir() as d:
-            for (nodes, failing), mode in [(v, m) for v in variants for m in ("reused", "fresh", "fresh-traced", "reused-traced", "run-space", "queue")]:
+            for (nodes, failing), mode in [(v, m) for v in variants for m in ("reused", "fresh", "fresh-traced", "reused-traced", "run-space-api", "run-space", "queue")]:
                 if failing and mode == "run-space":
                     continue          # a launch stops at its first failing run: nothing is repeated
                 stats["failing_variants"] = stats.get("failing_variants", 0) + (1 if failing else 0)
